@@ -26,9 +26,11 @@ VarNames == {"a", "b", "n", "m", "c"}
 
 LabelMenu(L) == {IxAll, IxSc(L[Len(L)]), IxSc(L[1] + 1), IxLi(Rev(L)), IxLi(<<L[1]>>), IxLi(<<>>), IxLi(<<L[1], L[1]>>),
                  IxMk([i \in 1..Len(L) |-> i # 1 \/ Len(L) = 1]), IxSl(<<L[1]>>, <<L[Len(L)]>>, <<>>), IxSl(<<>>, <<L[1]>>, <<>>)}
+                \cup (IF Len(L) >= 3 THEN {IxLi(<<L[Len(L)], L[1], L[2]>>)} ELSE {})          \* a rotation: neither sorted nor reversed
 PosMenu(n) == {IxAll, IxSc(n - 1), IxSc(-n), IxSc(n), IxLi([i \in 1..n |-> n - i]), IxLi(<<0>>), IxLi(<<>>), IxMk([i \in 1..n |-> i # 1 \/ n = 1]),
                IxLi(<<-1, 0>>), IxLi(IF n >= 2 THEN <<-2, -1>> ELSE <<-1>>), IxLi([i \in 1..n |-> i - 1]),
                IxSl(<<1>>, <<>>, <<>>), IxSl(<<>>, <<-1>>, <<>>), IxSl(<<>>, <<>>, <<-1>>)}
+              \cup (IF n >= 3 THEN {IxLi(<<n - 1, 0, 1>>), IxLi(<<1, 2, 0>>)} ELSE {})
 RECURSIVE IdxTuples(_, _)
 IdxTuples(labs, mode) ==
   IF labs = <<>> THEN {<<>>}
@@ -110,9 +112,16 @@ Multi ==
   /\ ph = 0 /\ ph' = 1
   /\ \E nf \in 2..3 : \E rel \in {"equal", "differ"} : \E ax \in {"new", "y", "x"} : \E al \in BOOLEAN : \E so \in BOOLEAN : \E keys \in BOOLEAN :
        /\ (so => al) /\ (ax # "new" => ~keys)
-       /\ in' = [NoIn EXCEPT !.fam = "multi", !.cfg = [nf |-> nf, rel |-> rel, axis |-> ax, align |-> al, sort |-> so, keys |-> keys]]
+       /\ in' = [NoIn EXCEPT !.fam = "multi", !.cfg = [nf |-> nf, rel |-> rel, axis |-> ax, align |-> al, sort |-> so, keys |-> keys, rekey |-> ""]]
        \* only the x axes differ between files: joining along x itself needs no alignment
        /\ out' = [ok |-> (rel = "equal" \/ al \/ ax = "x"), val |-> <<>>, err |-> IF rel = "equal" \/ al \/ ax = "x" THEN "" ELSE "ValueError"]
+\* keys together with an existing axis: the files hold consecutive pieces of x; the concatenation is re-indexed on the given keys
+\* (the same labels in another order, a subset, or with a label no file has)
+MultiRekey ==
+  /\ ph = 0 /\ ph' = 1
+  /\ \E nf \in 2..3 : \E rk \in {"sorted", "reversed", "subset", "extra"} :
+       /\ in' = [NoIn EXCEPT !.fam = "multi", !.cfg = [nf |-> nf, rel |-> "pieces", axis |-> "x", align |-> FALSE, sort |-> FALSE, keys |-> TRUE, rekey |-> rk]]
+       /\ out' = [ok |-> TRUE, val |-> <<>>, err |-> ""]
 \* a 0-d variable on disk: only the empty index addresses it.  Any other index (a position, a label, a list, a slice with bounds,
 \* a dimension it does not have, two indices) is rejected as on the loaded array - and an assignment through it leaves the file as it was
 ZeroD ==
@@ -120,7 +129,7 @@ ZeroD ==
   /\ \E k \in {"sc", "li", "sl", "str", "dict", "two", "empty"} : \E w \in BOOLEAN : \E mode \in {"label", "position"} :
        /\ in' = [NoIn EXCEPT !.fam = "zerod", !.v = k, !.two = w, !.mode = mode]
        /\ out' = [ok |-> k = "empty", val |-> <<>>, err |-> IF k = "empty" THEN "" ELSE "IndexError"]
-Next == (Read \/ ReadTol \/ DsRead \/ Assign \/ AssignTol \/ Assign2 \/ AppendUnl \/ Multi \/ ZeroD) /\ (Emit => PrintT(ToJson([op |-> "ondisk", in |-> in', out |-> out'])))
+Next == (Read \/ ReadTol \/ DsRead \/ Assign \/ AssignTol \/ Assign2 \/ AppendUnl \/ Multi \/ MultiRekey \/ ZeroD) /\ (Emit => PrintT(ToJson([op |-> "ondisk", in |-> in', out |-> out'])))
 Spec == Init /\ [][Next]_vars
 Sane == (ph = 1 /\ in.fam \in {"read", "assign"} /\ out.ok) => WellFormed(out.val)
 =============================================================================
